@@ -3,7 +3,7 @@
 From Coq Require Import List Bool Arith ZArith Lia Permutation.
 Import ListNotations.
 From HV Require Import lib.PyDict lib.Harness model.BiMapM proofs.BiMapP model.Graph spec.GraphS
-     proofs.GraphP proofs.GraphInvP.
+     spec.InsertS proofs.GraphP proofs.GraphInvP.
 
 Section Ins.
   Context {Op Meta : Type}.
@@ -559,5 +559,145 @@ Section Ins.
           destruct (TB3 c b a1 Eb H1) as (b1 & E1 & _). destruct (TB3 c b a2 Eb H2) as (b2 & E2 & _).
           destruct (Himg _ _ E1) as (v1 & Em1 & Hv1). destruct (Himg _ _ E2) as (v2 & Em2 & Hv2).
           eapply (sh_inj _ _ _ _ _ HS); [exact Em1|]. rewrite Em2. f_equal. congruence.
+  Qed.
+
+  (* ---------------------------------------------------------------- phase 3: re-adding the links *)
+  Definition bump (s t : port) (x : nid) (a : anode Op Meta) : anode Op Meta :=
+    a_with_nin (a_with_nout a (if Nat.eqb x (fst s) then Z.max (a_nout a) (snd s + 1) else a_nout a))
+               (if Nat.eqb x (fst t) then Z.max (a_nin a) (snd t + 1) else a_nin a).
+  Lemma s_add_link_get (g : agraph) s t x :
+    aget (a_nodes (s_add_link g s t)) x = option_map (bump s t x) (aget (a_nodes g) x).
+  Proof.
+    unfold s_add_link. cbn [a_nodes]. rewrite !a_upd_get. unfold bump.
+    destruct (Nat.eqb_spec x (fst t)) as [->|Hxt].
+    - destruct (Nat.eqb_spec (fst t) (fst s)) as [E|Hts].
+      + rewrite E. destruct (aget (a_nodes g) (fst s)) as [a|]; [|reflexivity]. reflexivity.
+      + destruct (aget (a_nodes g) (fst t)) as [a|]; [|reflexivity]. cbn. now destruct a.
+    - destruct (Nat.eqb_spec x (fst s)) as [->|Hxs].
+      + destruct (aget (a_nodes g) (fst s)) as [a|]; [|reflexivity]. cbn. now destruct a.
+      + destruct (aget (a_nodes g) x) as [a|]; [|reflexivity]. cbn. now destruct a.
+  Qed.
+
+  Lemma add_link_pt (h : hugr) s t : Inv h -> get_node h (fst s) <> None -> get_node h (fst t) <> None ->
+    (-1 <= snd s)%Z -> (-1 <= snd t)%Z ->
+    exists h', add_link h s t = (h', Ok) /\ Inv h' /\ root h' = root h /\
+      Permutation (q_links h') (q_links h ++ [(s, t)]) /\
+      forall x, option_map anode_of (get_node h' x) = option_map (bump s t x) (option_map anode_of (get_node h x)).
+  Proof.
+    intros HI Hs Ht Hso Hto.
+    destruct (add_link_refines h (abs h) s t HI (Rep_abs h)) as (h' & Hadd & HI' & HR').
+    - unfold port_ok. apply andb_true_iff. split; [now apply abs_live|now apply Z.leb_le].
+    - unfold port_ok. apply andb_true_iff. split; [now apply abs_live|now apply Z.leb_le].
+    - exists h'. split; [exact Hadd|]. split; [exact HI'|]. destruct HR' as (HN & _ & HP & Hroot). split; [|split].
+      + rewrite Hroot. unfold s_add_link. cbn [a_root]. now rewrite !a_upd_root.
+      + unfold q_links. rewrite HP. unfold s_add_link. cbn [a_links]. now rewrite !a_upd_links.
+      + intros x. rewrite HN, s_add_link_get. f_equal. symmetry. apply (get_refines h (abs h) x (Rep_abs h)).
+  Qed.
+
+  Definition same3 (A : hugr) (d d2 : node_data) (x : nid) : Prop :=
+    nd_op d = nd_op d2 /\ nd_parent d = nd_parent d2 /\ nd_children d = nd_children d2 /\ nd_meta d = nd_meta d2 /\
+    nd_outs d = nd_outs d2 /\ (get_node A x <> None -> nd_inps d = nd_inps d2).
+  Definition R3 (A A2 Ak : hugr) : Prop :=
+    Inv Ak /\ root Ak = root A2 /\
+    forall x, match get_node Ak x, get_node A2 x with
+              | Some d, Some d2 => same3 A d d2 x
+              | None, None => True
+              | _, _ => False
+              end.
+
+  Lemma copy_links_ok (A B : hugr) p m A2 : Shape A B p m A2 -> forall ls Ak, R3 A A2 Ak ->
+    (forall s t, In (s, t) ls ->
+       (exists bs, get_node B (fst s) = Some bs /\ (-1 <= snd s < nd_outs bs)%Z) /\
+       (get_node B (fst t) <> None /\ (-1 <= snd t)%Z)) ->
+    exists A3, copy_links Ak m ls = (A3, Ok) /\ R3 A A2 A3 /\
+               Permutation (q_links A3) (q_links Ak ++ map (mapl m) ls).
+  Proof.
+    intros HS. induction ls as [|[s t] rest IH]; intros Ak HR Hls; cbn [copy_links].
+    - exists Ak. split; [reflexivity|]. split; [exact HR|]. cbn. now rewrite app_nil_r.
+    - destruct (Hls s t ltac:(now left)) as ((bs & Ebs & Hbs) & (Hbt & Hto)).
+      destruct (mget m (fst s)) as [s'|] eqn:Ems; [|exfalso; apply (proj2 (sh_dom _ _ _ _ _ HS (fst s))); congruence].
+      destruct (mget m (fst t)) as [t'|] eqn:Emt; [|exfalso; now apply (proj2 (sh_dom _ _ _ _ _ HS (fst t)))].
+      destruct (get_node B (fst t)) as [bt|] eqn:Ebt; [|congruence].
+      destruct HR as (HI & Hroot & Hsame).
+      destruct (sh_copy _ _ _ _ _ HS _ _ _ Ems Ebs) as (ds2 & Eds2 & _ & _ & Hout2 & _).
+      destruct (sh_copy _ _ _ _ _ HS _ _ _ Emt Ebt) as (dt2 & Edt2 & _).
+      assert (Hslive : exists ds, get_node Ak s' = Some ds /\ nd_outs ds = nd_outs bs).
+      { specialize (Hsame s'). rewrite Eds2 in Hsame. destruct (get_node Ak s') as [ds|]; [|contradiction].
+        exists ds. split; [reflexivity|]. destruct Hsame as (_ & _ & _ & _ & Ho & _). congruence. }
+      destruct Hslive as (ds & Eds & Houts).
+      assert (Htlive : get_node Ak t' <> None).
+      { specialize (Hsame t'). rewrite Edt2 in Hsame. destruct (get_node Ak t'); [discriminate|contradiction]. }
+      destruct (add_link_pt Ak (s', snd s) (t', snd t) HI) as (h' & Hadd & HI' & Hroot' & HP' & Hpt);
+        cbn [fst snd]; try lia; try congruence.
+      rewrite Hadd.
+      destruct (IH h') as (A3 & Hcl & HR3 & HP3).
+      + split; [exact HI'|]. split; [now rewrite Hroot'|]. intros x. specialize (Hsame x). specialize (Hpt x).
+        cbn [fst snd] in Hpt.
+        destruct (get_node Ak x) as [d|] eqn:Ed; destruct (get_node A2 x) as [d2|] eqn:Ed2; try contradiction.
+        * destruct (get_node h' x) as [d'|]; [|discriminate]. cbn in Hpt. injection Hpt as H1 H2 H3 H4 H5 H6.
+          destruct Hsame as (S1 & S2 & S3 & S4 & S5 & S6). unfold same3. repeat split; try congruence.
+          -- rewrite H6, <- S5. destruct (Nat.eqb_spec x s') as [->|]; [|reflexivity].
+             assert (d = ds) by congruence. subst d. lia.
+          -- intros Hlive. rewrite H5, <- (S6 Hlive). destruct (Nat.eqb_spec x t') as [->|]; [|reflexivity].
+             exfalso. apply Hlive. exact (sh_fresh _ _ _ _ _ HS _ _ Emt).
+        * destruct (get_node h' x); [discriminate|exact I].
+      + intros s0 t0 Hin. apply Hls. now right.
+      + exists A3. split; [exact Hcl|]. split; [exact HR3|]. rewrite HP3, HP'. cbn [map].
+        rewrite <- app_assoc. cbn [app]. unfold mapl, mapp. cbn [fst snd].
+        now rewrite (mapn_get _ _ _ Ems), (mapn_get _ _ _ Emt).
+  Qed.
+
+  (* ---------------------------------------------------------------- the theorem *)
+  Record IsoFrame (A B : hugr) (p : nid) (m : mapping) (A' : hugr) : Prop := {
+    (* the mapping is a bijection from the live nodes of B onto nodes that were not live in A *)
+    if_keys : NoDup (map fst m);
+    if_dom : forall c, mget m c <> None <-> get_node B c <> None;
+    if_inj : forall c1 c2 v, mget m c1 = Some v -> mget m c2 = Some v -> c1 = c2;
+    if_fresh : forall c c', mget m c = Some c' -> get_node A c' = None;
+    (* isomorphism: operation, metadata, output port count, parent (the root hangs under p), ordered children *)
+    if_copy : forall c c' b, mget m c = Some c' -> get_node B c = Some b ->
+               exists d', get_node A' c' = Some d' /\ nd_op d' = nd_op b /\ nd_meta d' = nd_meta b /\
+                 nd_outs d' = nd_outs b /\
+                 nd_parent d' = Some (match nd_parent b with None => p | Some q => mapn m q end) /\
+                 nd_children d' = map (mapn m) (nd_children b);
+    (* every link of B with its offsets and multiplicity, next to the links A had *)
+    if_links : Permutation (q_links A') (q_links A ++ map (mapl m) (q_links B));
+    (* frame: every node of A is unchanged, except that p gains the image of B's root as its last child *)
+    if_root : root A' = root A;
+    if_old : forall x d, get_node A x = Some d ->
+               get_node A' x = Some (if Nat.eqb x p then add_child (mapn m (root B)) d else d);
+    if_only : forall x, get_node A' x <> None -> get_node A x <> None \/ exists c, mget m c = Some x
+  }.
+
+  Theorem insert_ok (A B : hugr) (parent : option nid) :
+    let p := match parent with Some x => x | None => root A end in
+    Inv A -> Inv B -> WF B -> get_node A p <> None ->
+    exists A' m, insert_hugr A B parent = (A', m, Ok) /\ Inv A' /\ IsoFrame A B p m A'.
+  Proof.
+    intros p HIA HIB HWF HpA.
+    destruct (phase12 A B parent HIA HIB HWF HpA) as (A1 & A2 & m & Hins & Hcc & HS). fold p in HS.
+    pose proof (shape_inv A B p m A2 HIA HIB HpA HS) as HI2.
+    destruct (copy_links_ok A B p m A2 HS (q_links B) A2) as (A3 & Hcl & (HI3 & Hroot3 & Hsame3) & HP3).
+    - split; [exact HI2|]. split; [reflexivity|]. intros x. destruct (get_node A2 x); [|exact I].
+      unfold same3. repeat split; reflexivity.
+    - intros s t Hin. destruct HIB as (_ & _ & HCB & _). destruct (HCB s t Hin) as ((bs & E & Bd) & (bt & E2 & Bd2)).
+      split; [eauto|]. split; [congruence|lia].
+    - exists A3, m. unfold insert_hugr. rewrite Hins, Hcc, Hcl. split; [reflexivity|]. split; [exact HI3|].
+      constructor.
+      + exact (sh_keys _ _ _ _ _ HS).
+      + exact (sh_dom _ _ _ _ _ HS).
+      + exact (sh_inj _ _ _ _ _ HS).
+      + exact (sh_fresh _ _ _ _ _ HS).
+      + intros c c' b Em Eb. destruct (sh_copy _ _ _ _ _ HS c c' b Em Eb) as (d2 & Ed2 & F1 & F2 & F3 & _ & F5 & F6).
+        specialize (Hsame3 c'). rewrite Ed2 in Hsame3. destruct (get_node A3 c') as [d|]; [|contradiction].
+        destruct Hsame3 as (S1 & S2 & S3 & S4 & S5 & _). exists d. split; [reflexivity|]. repeat split; congruence.
+      + rewrite HP3. unfold q_links. now rewrite (sh_links _ _ _ _ _ HS).
+      + rewrite Hroot3. exact (sh_root _ _ _ _ _ HS).
+      + intros x d Ex. pose proof (sh_old _ _ _ _ _ HS x d Ex) as E2. specialize (Hsame3 x). rewrite E2 in Hsame3.
+        destruct (get_node A3 x) as [d3|]; [|contradiction]. f_equal.
+        destruct Hsame3 as (S1 & S2 & S3 & S4 & S5 & S6). specialize (S6 ltac:(congruence)).
+        destruct d3, (if Nat.eqb x p then add_child (mapn m (root B)) d else d). cbn in *. congruence.
+      + intros x Hx. apply (sh_only _ _ _ _ _ HS). specialize (Hsame3 x).
+        destruct (get_node A3 x); [|congruence]. destruct (get_node A2 x); [discriminate|contradiction].
   Qed.
 End Ins.
